@@ -32,10 +32,10 @@ func AfterFunc(c Context, f func()) (stop func() bool)     { return context.Afte
 
 type vctx struct {
 	context.Context // parent (values)
-	mu       sync.Mutex
-	done     chan struct{}
-	err      error
-	deadline time.Time
+	mu              sync.Mutex
+	done            chan struct{}
+	err             error
+	deadline        time.Time
 }
 
 func (c *vctx) Done() <-chan struct{}       { return c.done }
